@@ -314,7 +314,7 @@ func typeCacheFacts(repo string) map[string]interface{} {
 	for _, f := range files {
 		for _, d := range f.Decls {
 			fd, ok := d.(*ast.FuncDecl)
-			if !ok || fd.Recv == nil || fd.Body == nil || (fd.Name.Name != "Type" && fd.Name.Name != "Succs") {
+			if !ok || fd.Recv == nil || fd.Body == nil || fd.Name.Name != "Type" {
 				continue
 			}
 			recvName := ""
